@@ -1,5 +1,6 @@
 import DadiVerif.Lemmas.Integrate
 import DadiVerif.Lemmas.Precalc
+import DadiVerif.Lemmas.Pivots
 /-!
 # C02 — every integration path solves the documented implicit scheme
 
@@ -190,6 +191,21 @@ theorem C02_wiring_precalc :
     ∧ Py.preWiring.map (fun e => (e.d, e.ax)) = (List.replicate 4 (2, 0)) ++ (List.replicate 4 (2, 1)) ++ (List.replicate 2 (2, 0))
         ++ (List.replicate 2 (2, 1)) ++ (List.replicate 6 (3, 0)) ++ (List.replicate 6 (3, 1)) ++ (List.replicate 6 (3, 2)) := by
   decide
+
+/-- **The hypothesis `PivotsOk` of `C02_thomas`/`C02_step_solves` holds whenever the scheme is an M-matrix**: on a strictly increasing
+    grid, for dt > 0, if the flux coefficients of every interval are non-negative (atemp ≥ 0 and ctemp ≥ 0 — the sign form of the
+    mesh-Péclet condition) and ν > 0, then no Thomas pivot vanishes (each pivot is ≥ 1/dt), for every right-hand side, every
+    delj, every corner flag.  In particular unconditionally without migration and selection (`C02_pivots_nomig`). -/
+theorem C02_pivots_mmatrix : type_of% @mkLine_pivotsOk := @mkLine_pivotsOk
+
+theorem C02_pivots_nomig (xs : Array ℚ) (hg : GridOk xs) (hx0 : 0 ≤ xs.getD 0 0) (hx1 : xs.getD (xs.size-1) 0 ≤ 1)
+    (P : AxisParams) (hgam : P.gamma = 0) (hm : ∀ m ∈ P.ms, m = 0) (hnu : 0 < P.nu) (hβ : ∀ β, P.beta = some β → 0 < β)
+    (ys : List ℚ) (use : Bool) (eps : ℕ → ℚ) (dt : ℚ) (hdt : 0 < dt) :
+    ∀ φ, PivotsOk 1 0 ((axisLine xs P ys use eps dt).rows φ) :=
+  axisLine_pivotsOk_nomig xs hg hx0 hx1 P hgam hm hnu hβ ys use eps dt hdt
+
+/-- …and with migration/selection under the sign form of the Péclet condition (delj = 1/2) -/
+theorem C02_pivots_peclet : type_of% @axisLine_pivotsOk_peclet := @axisLine_pivotsOk_peclet
 
 /-- non-vacuity: a 5-point grid, ν=2, m=1, γ=−3, h=1/5, dt=1/100 — pivots are non-zero and the step solves. -/
 example : PivotsOk 1 0
